@@ -42,6 +42,9 @@ claimed = {
  "C19": ("effect analysis over the read-API call graph (who may write what)", "DESIGN §3.5, §4 C19",
    "Nothing reachable from the read API writes through a shared Reader/Merged/block source/block reader, into block bytes, or to package-level state; file handles are used positionally only; shared types hold no per-caller objects. Immutability after construction is the design's race-freedom argument and is decided for all code paths.",
    "type-based sharing; user-supplied BlockSources and lock-protected caches are outside the rule"),
+ "C11": ("sibling agreement + decision tables on the RefsFor / point-lookup paths", "DESIGN §3.4, §4 C11",
+   "Update-index delta written by the writer is added back on every path that yields a caller's RefRecord; every point lookup compares the name found; both filters yield exactly on value/peeled-value match; merged RefsFor re-checks against its own view; object index fed from value and peeled value; nilable iterators checked.",
+   "exactness of the result set for given data and object-index contents are not decided"),
 }
 not_applicable_reason = {
  "C17": "quantifies over numeric size vectors and workload sizes (size classes, cumulative byte sums, 2*log2 N depth, N*log2 N cost); no clause is decidable from the shape of the code, and evaluating the chooser on enumerated vectors would be a runtime test (DESIGN §4 C17)",
